@@ -2,6 +2,7 @@ SPECIFICATION Spec
 CONSTANTS
   N = 2
   R = 2
+  Part = "all"
   BugGapsIgnoreTarget = TRUE
 INVARIANTS GapsPartitionTarget CoalesceKeepsCoverage SubtractIsDifference CoveredIffNoGaps RegionPlanExists AllocBounds
 CHECK_DEADLOCK FALSE
